@@ -426,6 +426,9 @@ class Gen:
                 continue
             L = li.origin
             if not all(flat(g) for g in L.groups):
+                # nested groups: decided modularly (contracts on the visitor's on_group / on_entry instantiations, lib/gen_sbc.py)
+                o.append("sbepp::size_bytes_checked_result r_%s_sbc(const %s& v, std::size_t n) { return sbepp::size_bytes_checked(v, n); }" % (li.ident, li.cpp))
+                self.sbc_nested_roots = getattr(self, "sbc_nested_roots", []) + [li.ident]
                 continue
             o.append("sbepp::size_bytes_checked_result r_%s_sbc(const %s& v, std::size_t n) { return sbepp::size_bytes_checked(v, n); }" % (li.ident, li.cpp))
             self.sbc_roots.append(li.ident)
